@@ -508,7 +508,7 @@ CONTRACTS = [
          self_type='ScaledInteger', requires=['inv(self)', 'is_wire(value)'],
          ensures={'conv': 'ConvW(self, result)', 'same': 'DenWire(self, result, value)'},
          raises={'badvalue': 'issubclass(exc, BadValueError)'},
-         lemmas={'roundtrip': dict(requires=['InSet(self, v__)', 'Exported(self, v__, value)'], ensures={'back': 'same_value(result, v__)'}, raises='never', ghost_params={'v__': 'any'})},
+         lemmas={'roundtrip': dict(requires=['InSet(self, v__)', 'Exported(self, v__, value)'], ensures={'back': 'same_value(result, v__)'}, raises='never', ghost_params={'v__': 'any'}, vc=False)},
          witness="ScaledInteger(F['scale'], F['min'], F['max'])"),
     # ------------------------------------------------------------- EnumType
     dict(key='EnumType.__call__', file='frappy/datatypes.py', func='EnumType.__call__', serves=['C01', 'C02'],
